@@ -137,10 +137,12 @@ KdfCalls ==
 
 (****************************** PSK bundle ***********************************)
 PskLens == {0, 1, 2, 31, 32, 33, 64, 1000}
+\* the rule is about EMPTINESS, not content: all-zero and all-ones strings are ordinary non-empty values
+PskContents(name, n) == {Leaf(name \o ToString(n), n)} \cup (IF n \in {1, 2, 32} THEN {Lit(Zeros(n)), Lit(Fill(255, n))} ELSE {})
 PskCalls ==
-    {LET psk == Leaf("psk" \o ToString(a), a) id == Leaf("pskid" \o ToString(b), b) r == PskBundleNew(psk, id)
-     IN Rec("psk_bundle_new", EmptyF, [psk |-> psk, psk_id |-> id], [kind |-> r.kind, err |-> r.err, payload |-> <<>>], EmptyF)
-     : a \in PskLens, b \in PskLens}
+    UNION {{LET r == PskBundleNew(psk, id)
+            IN Rec("psk_bundle_new", EmptyF, [psk |-> psk, psk_id |-> id], [kind |-> r.kind, err |-> r.err, payload |-> <<>>], EmptyF)
+            : psk \in PskContents("psk", ab[1]), id \in PskContents("pskid", ab[2])} : ab \in PskLens \X PskLens}
 
 NistNext ==
     \E kem \in KemSet \cap NistKems :
